@@ -355,7 +355,15 @@ def path_summaries(f: FuncInfo, limit: int = 512, body: Optional[List[ast.stmt]]
                 out.append(Path(conds, "fall", None, eff, env, None))
             return
         st, rest = stmts[0], list(stmts[1:])
-        if isinstance(st, ast.Return):
+        if isinstance(st, ast.Return) and _is_predicate_return(st, f, body):
+            # `return <test>` in a function whose other returns are True / False is `if <test>: return True` / `return False`
+            e0 = st.value
+            while isinstance(e0, ast.Call) and isinstance(e0.func, ast.Name) and e0.func.id == "bool" and len(e0.args) == 1 and not e0.keywords:
+                e0 = e0.args[0]
+            for truth in (True, False):
+                for c2 in push_all(conds, e0, truth, env):
+                    out.append(Path(c2, "return", ast.Constant(value=truth), eff, env, st))
+        elif isinstance(st, ast.Return):
             if st.value is None:
                 out.append(Path(conds, "return", ast.Constant(value=None), eff, env, st))
             for c2, v in (variants(st.value, conds, env) if st.value is not None else ()):
@@ -446,6 +454,20 @@ def path_summaries(f: FuncInfo, limit: int = 512, body: Optional[List[ast.stmt]]
             run(rest, conds, env, eff, k)
     run(list(body if body is not None else f.node.body), [], dict(env0 or {}), [], [])
     return None if over[0] else out
+
+
+def _is_predicate_return(st: ast.Return, f: FuncInfo, body) -> bool:
+    e0, wrapped = st.value, False
+    while isinstance(e0, ast.Call) and isinstance(e0.func, ast.Name) and e0.func.id == "bool" and len(e0.args) == 1 and not e0.keywords:
+        e0, wrapped = e0.args[0], True
+    if not (isinstance(e0, (ast.Compare, ast.BoolOp)) or (isinstance(e0, ast.UnaryOp) and isinstance(e0.op, ast.Not))):
+        return False
+    if body is not None:
+        return False
+    others = [r for r in ast.walk(f.node) if isinstance(r, ast.Return) and r is not st]
+    consts = [r for r in others if isinstance(r.value, ast.Constant) and isinstance(r.value.value, bool)]
+    preds = [r for r in others if r not in consts and isinstance(r.value, (ast.Compare, ast.BoolOp, ast.UnaryOp))]
+    return bool(consts) and len(consts) + len(preds) == len(others)
 
 
 def _sub_root(t):
